@@ -85,3 +85,19 @@ Definition gha_oracle (c : bytes * node * list (bytes * bytes) * list (bytes * b
       if negb (list_eqb pair_eqb decl expected) then 5
       else if list_eqb pair_eqb impl decl then 0 else if known then 7 else 6
   end.
+
+(* C05 for workflows: the conclusion of C05_github_actions_covers_ref observed on the model's walk over a real tree.
+   0 = every reported range is exactly the ref text; 7 = some range ends in a closing quote (listed class);
+   8 = outside the hypotheses of the theorem; 4 = no denotation; 6 = a range that is neither (contradicts the theorem) *)
+From VL Require Import Model.Walks Spec.GhaLoc.
+Definition gha_loc_oracle (c : bytes * node) : N :=
+  let '(content, cst) := c in
+  match denote_yaml content cst with
+  | None => 4
+  | Some v =>
+      if negb (gha_regular v) || gha_known v then 8
+      else match walk_gha content cst with
+           | None => 6
+           | Some pk => if forallb (loc_exact_b content) pk then 0 else if forallb (gha_loc_fine_b content) pk then 7 else 6
+           end
+  end.
